@@ -271,17 +271,28 @@ def check_property(pid, tier, repo, scratch, seed):
     def relevant(f):
         if f.get('concrete_input'):
             return True
-        if f.get('in_primary') is False and not relv:
-            # a state-changing operation that the property only needs for "every reachable state": a failed result clause
-            # of it says nothing about this property; anything that may concern the representation invariant does
-            if 'postcondition not satisfied' in f.get('kind', '') and not any(w in (f.get('site_text') or '') for w in INV_WORDS):
-                return False
         if f.get('function', '').startswith('kani::') or f.get('function', '').startswith('regression'):
             return True
+        k = f.get('kind', '')
+        st = f.get('site_text') or ''
+        other_tags = [t for t in re.findall(r'// (C\d\d)\b', st) if t != pid]
+        if other_tags and pid not in re.findall(r'// (C\d\d)\b', st):
+            # the failed clause is the one that states a different property (C18 / C19 / C20 assertions): this property is
+            # undecided by it, not violated (a concrete failing input can still establish a violation)
+            return False
+        if f.get('in_primary') is False:
+            # a state-changing operation that the property only needs for "every reachable state": a failed result clause
+            # of it says nothing about this property; anything that may concern the representation invariant does
+            if 'postcondition not satisfied' in k and not any(w in st for w in INV_WORDS):
+                return False
+            return True
         if relv.get('site_tag'):
-            return relv['site_tag'] in (f.get('site_text') or '')
+            if relv['site_tag'] in st:
+                return True
+            # the tagged assertions are proved from loop invariants: a failed invariant clause that carries one of these
+            # words takes the ground away from them
+            return 'invariant not satisfied' in k and any(w in st for w in relv.get('site_words', []))
         if relv.get('safety'):
-            k = f.get('kind', '')
             from_repo = bool(f.get('site_origin')) and f['site_origin'][0] == 'C'
             if any(x in k for x in ('underflow/overflow', 'division by zero', 'decreases not satisfied', 'termination', 'bit shift')):
                 return True
@@ -304,7 +315,7 @@ def check_property(pid, tier, repo, scratch, seed):
     if new_fail or inconclusive:
         try:
             import replay_engine
-            concrete = replay_engine.search(pid, new_fail + inconclusive, repo, scratch)
+            concrete = replay_engine.search(pid, new_fail + inconclusive, repo, scratch, tags=pm.get('replay_tags'))
         except Exception as ex:  # the search is best effort
             concrete = {'found': False, 'error': repr(ex)}
         if concrete.get('found') and not new_fail:
@@ -312,6 +323,19 @@ def check_property(pid, tier, repo, scratch, seed):
             new_fail = [dict(x) for x in inconclusive if x.get('function')][:3] or [{'function': None, 'kind': 'undecided obligation', 'site_text': ''}]
             for x in new_fail:
                 x['note'] = 'the obligation is undecided by the verifier (%s); the violation is established by the concrete failing input' % x.get('why')
+    cross = None
+    if tier == 'thorough' and not new_fail and not inconclusive:
+        # thorough: the executable contracts are cross-checked against the real code on pseudo-random histories (this is also
+        # the reachability witness for the public preconditions); labelled exploration, never counted as proved
+        try:
+            import replay_engine
+            recs = [{'unit': u['unit']} for u in units]
+            cross = replay_engine.search(pid, recs, repo, scratch, seeds=30000 + seed, steps=100, tags=pm.get('replay_tags'))
+        except Exception as ex:
+            cross = {'found': False, 'error': repr(ex)}
+        if cross.get('found'):
+            concrete = cross
+            new_fail = [{'function': None, 'kind': 'executable contract violated on the real code (exploration cross-check)', 'site_text': cross.get('input', '')[:200]}]
     obligations = [o for u in units for o in u['obligations']] + [o for e in extra for o in e.get('obligations', [])]
     discharged = sum(1 for o in obligations if o['ok'])
     wall = time.time() - t0
@@ -328,6 +352,7 @@ def check_property(pid, tier, repo, scratch, seed):
             'extraction': [{'unit': u['unit'], 'files': u['extract']['files'], 'transform_counts': u['extract']['transform_counts']} for u in units],
             'vacuity_probes': vac,
             'bounded_components': [b for e in extra for b in e.get('bounded_components', [])],
+            'exploration_cross_check': cross,
             'explanation': pm.get('explanation', ''),
             'unit_wall_s': [{'unit': u['unit'], 'verus_s': round(u['t_verus'], 2), 'extract_s': round(u['t_extract'], 2)} for u in units],
             'engine_results': [{k: v for k, v in e.items() if k not in ('failures', 'inconclusive', 'obligations')} for e in extra],
